@@ -37,13 +37,13 @@ namespace link_layer {
         if ( hop < 5 || hop > 16 )
             return false;
 
-        hop_ = hop;
-
         std::uint8_t   used_channels[ max_number_of_data_channels ];
         const unsigned used_channels_count = build_used_channel_map( map, used_channels );
 
         if ( used_channels_count < 2 )
             return false;
+
+        hop_ = hop;
 
         for ( unsigned index = 0, channel = hop; index != max_number_of_data_channels; ++index )
         {
